@@ -71,6 +71,11 @@ def post_batch(tier, base_seed, results):
     out = scn_c02.post_batch(tier, base_seed, results, with_callcache=False)
     for v in out.get("violations", []):
         v["message"] = v["message"].replace("gibbs_options / mh_options", "pedigree gibbs / MH probabilities")
+    # both tiers: the compiled sampler with its built-in cache against its cache-free twin (a move built from a cached value that
+    # is not the likelihood is not the stated move)
+    ev, vs = scn_c02.pedcache_probe(tier, base_seed)
+    out["evidence"]["compiled_pedigree_sampler_cache_probe"] = ev
+    out["violations"] += vs
     return out
 
 
